@@ -1,6 +1,7 @@
 /- C26, file level: what the printer reads out of a parser state that sits on a START / END / TEXT chunk of an encoded document. -/
 import AgVerif.Proof.Axml
 import AgVerif.Proof.AxmlInv
+import AgVerif.Proof.AxmlValue
 namespace AgVerif.Proof.Axml
 open AgVerif.Axml AgVerif.Spec.Axml AgVerif.Gen.AxmlConsts
 
@@ -332,7 +333,13 @@ theorem res_buildAttrs_cons (opq : Nat → Nat → Str) (E : Enc) (s : PState) (
     (hw : wfAttr opq E a = true) (r : List RawAttr) (acc : List Attr) :
     buildAttrs opq s (rawOf E a :: r) acc = buildAttrs opq s r (setAttr (attrOf opq a) acc) := by
   simp only [wfAttr, Bool.and_eq_true, Bool.or_eq_true, decide_eq_true_eq] at hw
-  obtain ⟨⟨⟨⟨⟨⟨⟨⟨wns, wmem⟩, wleg⟩, wres⟩, _⟩, _⟩, _⟩, wstr⟩, wval⟩ := hw
+  obtain ⟨⟨⟨⟨⟨⟨⟨⟨wns, wmem⟩, wleg⟩, wres⟩, _⟩, _⟩, _⟩, wstr⟩, wval0⟩ := hw
+  have wval : LegalValue (formatValue opq a.ty a.data a.str) := by
+    apply formatValue_legal
+    · intro h3; simpa [valueOk, h3] using wval0
+    · intro h456
+      have h3 : ¬ a.ty = 3 := by omega
+      simpa [valueOk, h3, h456] using wval0
   have e1 : nsString s (rawOf E a).ns = .ok (a.ns.getD []) := res_nsString E s hp a.ns wns
   obtain ⟨shown, e2, e3⟩ := res_attrName E s hp a wmem wleg wns wres
   have e4 := res_checkUri E a.ns wns
